@@ -71,6 +71,8 @@ struct WellM {
     std::vector<int> ks;            // connected layers (1-based)
     bool msw = false;
     bool hasControl = false;
+    struct SegM { int num, branch, outlet; double length, depth; };
+    std::vector<SegM> segs;         // WELSEGS records of a multi-segment well (ABS lengths and depths), in the order written
 };
 
 struct Opts {
@@ -320,10 +322,28 @@ private:
         WellM& w = *v[rng.below(v.size())];
         std::ostringstream s;
         double top = 1990;
+        // main stem: one segment per connection.  In 40 % of the wells with >= 2 stem segments a two-segment lateral (branch 2, no
+        // connections) leaves the stem and takes the segment numbers in the MIDDLE of the stem's numbering (stem 2,3 - lateral 4,5 -
+        // stem 6,7): legal, numbers still increase away from the well head on every branch, but the order in which the library
+        // stores the segments (branch-contiguous) then differs from the numerical order.
+        const size_t m = w.ks.size();
+        const bool lateral = m >= 2 && rng.chance(0.4);
+        const size_t split = lateral ? 1 + rng.below(m - 1) : m;      // stem positions numbered before the lateral
+        w.segs.clear();
+        std::vector<int> stemNum(m);
+        for (size_t c = 0; c < m; ++c) stemNum[c] = 2 + (int)c + (c >= split ? 2 : 0);
+        for (size_t c = 0; c < m; ++c) {
+            if (lateral && c == split) {
+                const size_t from = rng.below(split);                  // stem position the lateral leaves from
+                const double l0 = top + 10.0 * (from + 1), d0 = 2000 + 10.0 * w.ks[from] - 5;
+                w.segs.push_back({2 + (int)split, 2, stemNum[from], l0 + 10, d0 + 1});
+                w.segs.push_back({3 + (int)split, 2, 2 + (int)split, l0 + 20, d0 + 2});
+            }
+            w.segs.push_back({stemNum[c], 1, c == 0 ? 1 : stemNum[c - 1], top + 10.0 * (c + 1), 2000 + 10.0 * w.ks[c] - 5});
+        }
         s << "WELSEGS\n " << q(w.name) << " " << fmtd(top) << " " << fmtd(top) << " 1.0e-5 'ABS' 'HFA' 'HO' /\n";
-        int seg = 2;
-        for (size_t c = 0; c < w.ks.size(); ++c, ++seg)
-            s << " " << seg << " " << seg << " 1 " << seg - 1 << " " << fmtd(top + 10.0 * (c + 1)) << " " << fmtd(2000 + 10.0 * w.ks[c] - 5) << " 0.2 0.0001 /\n";
+        for (auto& g : w.segs)
+            s << " " << g.num << " " << g.num << " " << g.branch << " " << g.outlet << " " << fmtd(g.length) << " " << fmtd(g.depth) << " 0.2 0.0001 /\n";
         s << "/\n";
         add(st, "WELSEGS", s.str());
         std::ostringstream c;
@@ -455,11 +475,10 @@ private:
         case 70: { // WELSEGS entered again for a well that already has segments (same topology, one segment re-dimensioned)
             std::vector<WellM*> v; for (auto& x : M->wells) if (x.msw) v.push_back(&x); if (v.empty()) return;
             WellM& m = *v[rng.below(v.size())];
-            const double top = 1990; const size_t changed = rng.below(m.ks.size());
+            const double top = 1990; const size_t changed = rng.below(m.segs.size());
             s << "WELSEGS\n " << q(m.name) << " " << fmtd(top) << " " << fmtd(top) << " 1.0e-5 'ABS' 'HFA' 'HO' /\n";
-            int seg = 2;
-            for (size_t c = 0; c < m.ks.size(); ++c, ++seg)
-                s << " " << seg << " " << seg << " 1 " << seg - 1 << " " << fmtd(top + 10.0 * (c + 1)) << " " << fmtd(2000 + 10.0 * m.ks[c] - 5) << " " << (c == changed ? fmtd(0.1 + 0.01 * rng.below(9)) : std::string("0.2")) << " 0.0001 /\n";
+            for (size_t c = 0; c < m.segs.size(); ++c) { const auto& g = m.segs[c];
+                s << " " << g.num << " " << g.num << " " << g.branch << " " << g.outlet << " " << fmtd(g.length) << " " << fmtd(g.depth) << " " << (c == changed ? fmtd(0.1 + 0.01 * rng.below(9)) : std::string("0.2")) << " 0.0001 /\n"; }
             s << "/\n";
             add(st, "WELSEGS", s.str()); return; }
         case 43: { WellM* i = anyInjector(); if (!i) return; s << "WINJMULT\n " << q(i->name) << " " << fmtd(100 + rng.below(200)) << " " << fmtd(0.001 * (1 + rng.below(5))) << " '" << (rng.chance(0.5) ? "WREV" : "CIRR") << "' /\n/\n"; add(st, "WINJMULT", s.str()); return; }
